@@ -182,7 +182,7 @@ func multiPackages(c *gen.DebCompressor, comps []string) ([]In, error) {
 
 func replayMulti(scenario string, raw json.RawMessage) []*mc.Violation {
 	var m MultiIn
-	if err := json.Unmarshal(raw, &m); err != nil {
+	if err := mc.UnmarshalInput(raw, &m); err != nil {
 		return nil
 	}
 	vs, _ := CheckMulti(scenario, m)
